@@ -292,6 +292,32 @@ def generic_programs():
     progs = [(n, box + "function main() -> void { %s }\n" % b, ("ok", e)) for n, b, e in cases]
     progs += [(n, nest + "function main() -> void { %s }\n" % b, ("ok", e)) for n, b, e in cases3]
     progs += [(n, stat + "function main() -> void { %s }\n" % b, ("ok", e)) for n, b, e in cases2]
+    # (second hunt, C08 d1/d4/d12, C06 d6) typed nulls as overload arguments, what 'destroy' leaves behind, base constructor visibility for
+    # super(...), inherited fields through 'super.'
+    an = ("class Animal { public constructor() -> Animal = default; }\nclass Dog extends Animal { public constructor() -> Dog = default; }\n"
+          "class Kn { public constructor() -> Kn = default; public function f(Animal a) -> void { echo(\"f(Animal)\"); } public function f(Dog a) -> void { echo(\"f(Dog)\"); } "
+          "public function g(Animal a) -> string { return \"g(Animal)\"; } public function g(Dog a) -> string { return \"g(Dog)\"; } }\n"
+          "class Pn { public constructor(Animal a) -> Pn { echo(\"Pn(Animal)\"); } public constructor(Dog d) -> Pn { echo(\"Pn(Dog)\"); } }\n"
+          "class Hn { public Animal fa; public Dog fd; public constructor() -> Hn { this.fa = null; this.fd = null; } }\n"
+          "function pass(Animal a) -> Animal { return a; }\n"
+          "class Bs { public constructor(Animal a) -> Bs { echo(\"Bs(Animal) public\"); } private constructor(Dog d) -> Bs { echo(\"Bs(Dog) private\"); } }\n"
+          "class Dr extends Bs { public constructor() -> Dr { super(new Dog()); echo(\"Dr()\"); } }\n"
+          "class Fb { protected int n = 7; public constructor() -> Fb = default; }\nclass Fd extends Fb { public constructor() -> Fd { super(); } public function viaSuper() -> int { return super.n + 1; } public function viaThis() -> int { return this.n + 1; } }\n"
+          "class Av { public int v = 3; public constructor() -> Av = default; public function say() -> void { echo(\"say\"); } }\n")
+    cases4 = [
+        ("null:typed-variable-arguments", "Kn k = new Kn(); Animal n = null; Dog dn = null; k.f(n); k.f(dn); echo(k.g(n)); echo(k.g(dn));", ("ok", ["f(Animal)", "f(Dog)", "g(Animal)", "g(Dog)"])),
+        ("null:typed-field-and-result-arguments", "Kn k = new Kn(); Hn h = new Hn(); k.f(h.fa); k.f(h.fd); Dog dn = null; k.f(pass(dn));", ("ok", ["f(Animal)", "f(Dog)", "f(Animal)"])),
+        ("null:typed-constructor-arguments", "Animal n = null; Dog dn = null; Pn p = new Pn(n); Pn q = new Pn(dn);", ("ok", ["Pn(Animal)", "Pn(Dog)"])),
+        ("null:after-assignment", "Kn k = new Kn(); Animal a = new Dog(); k.f(a); a = null; k.f(a); Dog d = new Dog(); d = null; k.f(d);", ("ok", ["f(Animal)", "f(Animal)", "f(Dog)"])),
+        ("destroy:compares-equal-to-null", "Av a = new Av(); destroy a; echo(a == null); Av b = new Av(); echo(b == null);", ("ok", ["true", "false"])),
+        ("destroy:method-call-is-null-reference", "Av a = new Av(); destroy a; a.say(); echo(\"still running\");", ("runtime", "null reference")),
+        ("destroy:field-read-is-null-reference", "Av a = new Av(); destroy a; echo(a.v);", ("runtime", "null reference")),
+        ("destroy:field-write-is-null-reference", "Av a = new Av(); destroy a; a.v = 4; echo(\"still running\");", ("runtime", "null reference")),
+        ("destroy:typed-slot-after-destroy", "Kn k = new Kn(); Animal a = new Dog(); destroy a; k.f(a); a = new Dog(); k.f(a);", ("ok", ["f(Animal)", "f(Animal)"])),
+        ("super:private-more-specific-base-constructor", "Dr d = new Dr(); Bs b = new Bs(new Dog());", ("ok", ["Bs(Animal) public", "Dr()", "Bs(Animal) public"])),
+        ("super:inherited-field", "Fd f = new Fd(); echo(f.viaSuper()); echo(f.viaThis());", ("ok", ["8", "8"])),
+    ]
+    progs += [(n, an + "function main() -> void { %s }\n" % b, e) for n, b, e in cases4]
     progs += fsz
     return progs
 
@@ -375,6 +401,10 @@ def _one(item):
         if st != "semantic":
             return name, src, "expected a Semantic rejection, got %s: %s" % (st, r.rec.get("msg")), None
         return name, src, None, "rejected"
+    if exp[0] == "runtime":
+        if st != "runtime" or exp[1] not in (r.rec.get("msg") or ""):
+            return name, src, "the documented behaviour is a Runtime error (%s) but the program ended with %s: %r %s" % (exp[1], st, r.rec.get("stdout"), r.rec.get("msg", "")), None
+        return name, src, None, "runtime"
     if st != "ok":
         return name, src, "the reference model runs this program (%d echoes) but the interpreter stopped with %s: %s" % (len(exp[1]), st, r.rec.get("msg")), None
     lines = r.rec["stdout"].split("\n")[:-1] if r.rec["stdout"] else []
